@@ -70,6 +70,7 @@ func init() {
 }
 
 func runC18(c *Ctx, r *Report) {
+	importFoundation(c, r, "C18", "read-loop")
 	importFoundation(c, r, "C18", "ansi")
 	r.Rule("C18/no-private-read", "SendWithCallbacks consumes device output only inside the callback loop: everything the device sends after the input is matched against the triggers", 1)
 	checkCallbacksNoPrivateRead(c, r, "C18/no-private-read")
